@@ -77,8 +77,55 @@ impl<'c, KD: Kind, const N: usize> MapEng<'c, KD, N> {
                     self.slots.swap(0, 1);
                 }
             }
+            4 | 7 if self.slots[1].is_some() => {
+                // Clone::clone_from into an existing container: dst.clone_from(&src) must leave
+                // dst with exactly src's entries, whatever dst held (more, fewer, other entries)
+                let (di, si) = if sub == 7 { (1, 0) } else { (0, 1) };
+                let step = self.cx.step;
+                let (a0, a1) = self.slots.split_at_mut(1);
+                let (dst, src) = if di == 1 { (a1[0].as_mut().unwrap(), a0[0].as_ref().unwrap()) } else { (a0[0].as_mut().unwrap(), a1[0].as_ref().unwrap()) };
+                let cx = &mut *self.cx;
+                let (nd, ns) = (dst.model.len(), src.model.len());
+                cx.bump(S::clones);
+                cx.bump(S::clone_froms);
+                if nd > ns {
+                    cx.bump(S::clone_from_shrinks);
+                }
+                if ns >= 2 {
+                    cx.bump(S::clones_ge2);
+                }
+                let calls0 = KD::clone_calls();
+                let dm = &mut dst.c.m;
+                let r = Self::lib(cx, || dm.clone_from(&src.c.m));
+                cx.log(|| format!("slot{di}.clone_from(slot{si}) ({nd} <- {ns} entries) -> {}", if r.is_ok() { "ok" } else { "panic" }));
+                match r {
+                    Ok(()) => {
+                        let obs = Self::observe(&dst.c).unwrap_or_default();
+                        dst.model.clear();
+                        for (raw, e) in &src.model {
+                            let ent = match obs.iter().find(|o| o.raw == *raw) {
+                                Some(o) => Ent { kid: o.kid, vid: o.vid, val: e.val },
+                                None => Ent { kid: NOID, vid: NOID, val: e.val },
+                            };
+                            dst.model.insert(*raw, ent);
+                        }
+                        if !liar {
+                            if KD::COUNTS_CLONES {
+                                let d = KD::clone_calls() - calls0;
+                                cx.chk(P15, d <= 2 * ns as u64, "clone-count", || format!("clone_from of {ns} entries made {d} Clone::clone calls"));
+                            }
+                            let eq = Self::lib(cx, || dst.c.m == src.c.m);
+                            cx.chk(P15, eq == Ok(true), "clone-equal", || format!("after dst.clone_from(&src), dst == src gives {eq:?}"));
+                        }
+                        dst.swapped = false;
+                        self.cloned_at = Some(step);
+                        self.mutated_clone_side = None;
+                    }
+                    Err(p) => fault |= unexpected(cx, liar, P15, &p),
+                }
+            }
             _ => {
-                // clone primary -> secondary (sub 7: secondary -> primary's place is not needed)
+                // clone primary -> secondary
                 fault |= self.drop_slot1();
                 let step = self.cx.step;
                 let src = self.slots[0].as_ref().unwrap();
@@ -95,6 +142,8 @@ impl<'c, KD: Kind, const N: usize> MapEng<'c, KD, N> {
                     cx.bump(S::clones_empty);
                 }
                 let counts0 = if KD::TRACKED { tl::ledger_clone_counts() } else { vec![] };
+                let calls0 = KD::clone_calls();
+                let gens0: Vec<(u8, u32, u32)> = if KD::COUNTS_CLONES { tl::quiet(|| src.c.m.iter().map(|(k, v)| (KD::kraw(k), KD::kgen(k), KD::vgen(v))).collect()).unwrap_or_default() } else { vec![] };
                 let r = Self::lib(cx, || src.c.m.clone());
                 cx.log(|| format!("clone primary ({n} entries) -> {}", if r.is_ok() { "ok" } else { "panic" }));
                 match r {
@@ -112,6 +161,16 @@ impl<'c, KD: Kind, const N: usize> MapEng<'c, KD, N> {
                             }
                             let created = counts1.len() - counts0.len();
                             cx.chk(P15, created == 2 * n, "clone-count", || format!("clone() of {n} entries created {created} objects, expected {}", 2 * n));
+                        }
+                        if KD::COUNTS_CLONES && !liar {
+                            // payload without drop glue: every stored key and value still goes through Clone::clone, once
+                            let d = KD::clone_calls() - calls0;
+                            cx.chk(P15, d == 2 * n as u64, "clone-count", || format!("clone() of {n} entries made {d} Clone::clone calls, expected {}", 2 * n));
+                            let gens1: Vec<(u8, u32, u32)> = tl::quiet(|| ns.c.m.iter().map(|(k, v)| (KD::kraw(k), KD::kgen(k), KD::vgen(v))).collect()).unwrap_or_default();
+                            for (raw, kg, vg) in &gens0 {
+                                let got = gens1.iter().find(|g| g.0 == *raw).map(|g| (g.1, g.2));
+                                cx.chk(P15, got == Some((kg + 1, vg + 1)), "clone-origin", || format!("entry {raw} of the clone is not a Clone::clone of the original entry (generations {got:?}, original ({kg}, {vg}))"));
+                            }
                         }
                         for (raw, e) in &src.model {
                             let o = obs.iter().find(|o| o.raw == *raw);
